@@ -1042,3 +1042,267 @@ fn m_dom_array2_n7() {
 fn m_dom_array_n7() {
     dom_array_body::<7>(true);
 }
+
+// ---- M-entry: one step of the lazy object iterator driver -----------------------------------------
+
+/// parse_str restricted to escape-free keys: borrowed span (justified by
+/// u_parse_string_raw_borrowed_n8); keys with escapes are assumed away.
+fn model_parse_str<'de, 'own, R: Reader<'de>>(
+    p: &mut Parser<R>,
+    _buf: &'own mut Vec<u8>,
+) -> Result<Reference<'de, 'own, str>> {
+    let b = p.read.as_u8_slice();
+    let i = p.read.index();
+    match unsafe { tab(&STR_END, i) } {
+        Some(e) => {
+            kani::assume(!unsafe { STR_ESC[i] });
+            p.read.set_index(e);
+            Ok(Reference::Borrowed(as_str(p.read.slice_unchecked(i, e - 1))))
+        }
+        None => {
+            p.read.set_index(b.len());
+            Err(cut_err(InvalidJsonValue, b, i))
+        }
+    }
+}
+
+/// C12/C14 M-entry: one step of the lazy object iterator from every (first, position): yields
+/// the next member (key span, value span) iff a member introduced by a correct separator
+/// follows, None iff `}`, an error otherwise; checked mode.
+#[kani::proof]
+#[kani::unwind(11)]
+#[kani::stub(crate::error::Error::syntax, crate::error::verif_kani_error::syntax_cut)]
+#[kani::stub(Parser::skip_space, model_skip_space)]
+#[kani::stub(Parser::skip_one, model_skip_one)]
+#[kani::stub(Parser::parse_str, model_parse_str)]
+fn m_entry_lazy_n9() {
+    const N: usize = 9;
+    let buf: [u8; N] = kani::any();
+    let n: usize = kani::any();
+    kani::assume(n <= N);
+    unsafe { setup(&buf, n) };
+    let start: usize = kani::any();
+    kani::assume(start <= n);
+    let first0: bool = kani::any();
+    let mut first = first0;
+    let mut strbuf: Vec<u8> = Vec::new();
+    let mut p = mk(&buf[..n]);
+    p.read.set_index(start);
+    let r = p.parse_entry_lazy(&mut strbuf, &mut first, true);
+    // reference: 0 = error, 1 = end (reader after '}'), 2 = member (key start/end, value start/end)
+    let mut exp = (0u8, 0usize, 0usize, 0usize, 0usize);
+    let mut i = unsafe { ws_next(start) };
+    let mut bad = false;
+    if first0 {
+        if i >= n || buf[i] != b'{' {
+            bad = true;
+        } else {
+            i = unsafe { ws_next(i + 1) };
+        }
+    }
+    if !bad && i < n {
+        if buf[i] == b'}' {
+            exp = (1, i + 1, 0, 0, 0);
+        } else {
+            let mut at = i;
+            let mut sep_ok = first0;
+            if !first0 && buf[i] == b',' {
+                at = unsafe { ws_next(i + 1) };
+                sep_ok = true;
+            }
+            if sep_ok && at < n && buf[at] == b'"' {
+                if let Some(ke) = unsafe { tab(&STR_END, at + 1) } {
+                    let c = unsafe { ws_next(ke) };
+                    if c < n && buf[c] == b':' {
+                        let vs = unsafe { ws_next(c + 1) };
+                        if let Some(ve) = unsafe { val_end(&buf, vs) } {
+                            exp = (2, at + 1, ke - 1, vs, ve);
+                        }
+                    }
+                }
+            }
+        }
+    }
+    match (&r, exp.0) {
+        (Ok(None), 1) => assert_eq!(p.read.index(), exp.1),
+        (Ok(Some(pair)), 2) => {
+            assert_eq!(pair.key.as_ptr(), unsafe { buf.as_ptr().add(exp.1) });
+            assert_eq!(pair.key.len(), exp.2 - exp.1);
+            assert_eq!(pair.val.as_ptr(), unsafe { buf.as_ptr().add(exp.3) });
+            assert_eq!(pair.val.len(), exp.4 - exp.3);
+            assert_eq!(p.read.index(), exp.4);
+            assert!(!first);
+        }
+        (Err(_), 0) => {}
+        _ => panic!("parse_entry_lazy differs from the object iteration grammar"),
+    }
+    kani::cover!(exp.0 == 2 && !first0);
+    kani::cover!(exp.0 == 2 && first0);
+    kani::cover!(exp.0 == 1 && !first0);
+    kani::cover!(exp.0 == 0 && !first0 && start < n);
+    core::mem::forget(r);
+    core::mem::forget(strbuf);
+}
+
+// ---- M-get (unchecked walkers): well-formed input, concrete grammar -------------------------------
+
+static mut FULL_END: [u8; TN + 1] = [0; TN + 1]; // ref_value_end at each position (0 = none)
+static mut TOK_A: u8 = 0;
+static mut TOK_B: u8 = 0;
+
+unsafe fn setup_full<const N: usize>(b: &[u8; N], n: usize) {
+    let mut i = 0;
+    while i <= N {
+        FULL_END[i] = if i < n && is_value_start(b[i]) {
+            match ref_value_end(b, n, i) {
+                Some(e) => e as u8,
+                None => 0,
+            }
+        } else {
+            0
+        };
+        i += 1;
+    }
+}
+
+/// skip_container == end of the well-formed container whose opening bracket was just consumed
+/// (justified by u_skip_container_tail_n8 / k_block_step_*)
+fn model_skip_container<'de, R: Reader<'de>>(p: &mut Parser<R>, _left: u8, _right: u8) -> Result<()> {
+    let b = p.read.as_u8_slice();
+    let i = p.read.index() - 1;
+    match unsafe { tab(&FULL_END, i) } {
+        Some(e) => {
+            p.read.set_index(e);
+            Ok(())
+        }
+        None => Err(cut_err(EofWhileParsing, b, i)),
+    }
+}
+
+/// skip_string_unchecked(2) == end of the well-formed literal (justified by u_skip_string_unchecked_n8, b_*)
+unsafe fn model_skip_string_unchecked2<'de, R: Reader<'de>>(p: &mut Parser<R>) -> Result<()> {
+    let b = p.read.as_u8_slice();
+    let i = p.read.index();
+    match tab(&STR_END, i) {
+        Some(e) => {
+            p.read.set_index(e);
+            Ok(())
+        }
+        None => Err(cut_err(EofWhileParsing, b, i)),
+    }
+}
+
+unsafe fn model_skip_string_unchecked<'de, R: Reader<'de>>(p: &mut Parser<R>) -> Result<ParseStatus> {
+    let b = p.read.as_u8_slice();
+    let i = p.read.index();
+    match tab(&STR_END, i) {
+        Some(e) => {
+            p.read.set_index(e);
+            Ok(if STR_ESC[i] { ParseStatus::HasEscaped } else { ParseStatus::None })
+        }
+        None => Err(cut_err(EofWhileParsing, b, i)),
+    }
+}
+
+/// get_next_token == first occurrence of one of the two tokens (justified by u_get_next_token_n6);
+/// the token pair is fixed per walker and recorded by the harness.
+fn model_get_next_token<'de, R: Reader<'de>, const N: usize>(p: &mut Parser<R>, _tokens: [u8; N], advance: usize) -> Option<u8> {
+    let b = p.read.as_u8_slice();
+    let n = b.len();
+    let mut j = p.read.index();
+    let (ta, tb) = unsafe { (TOK_A, TOK_B) };
+    while j < n && b[j] != ta && b[j] != tb {
+        j += 1;
+    }
+    if j < n {
+        p.read.set_index(j + advance);
+        Some(b[j])
+    } else {
+        p.read.set_index(n);
+        None
+    }
+}
+
+/// skip_one on well-formed input == whitespace + the full value grammar
+fn model_skip_one_full<'de, R: Reader<'de>>(p: &mut Parser<R>) -> Result<(&'de [u8], ParseStatus)> {
+    let b = p.read.as_u8_slice();
+    let n = b.len();
+    let i = unsafe { ws_next(p.read.index()) };
+    match unsafe { tab(&FULL_END, i) } {
+        Some(e) => {
+            p.read.set_index(e);
+            Ok((p.read.slice_unchecked(i, e), ParseStatus::None))
+        }
+        None => {
+            p.read.set_index(if i < n { i + 1 } else { n });
+            Err(cut_err(InvalidJsonValue, b, i))
+        }
+    }
+}
+
+/// C10 M-get_array (unchecked): on every well-formed document <= N bytes whose value is an array,
+/// the trusting index walker + final skip returns exactly the source span of element `idx`
+/// (the same answer as the checked walker / a full parse), and fails when the index is missing.
+#[kani::proof]
+#[kani::unwind(12)]
+#[kani::stub(crate::error::Error::syntax, crate::error::verif_kani_error::syntax_cut)]
+#[kani::stub(Parser::skip_space, model_skip_space)]
+#[kani::stub(Parser::skip_container, model_skip_container)]
+#[kani::stub(Parser::skip_string_unchecked2, model_skip_string_unchecked2)]
+#[kani::stub(Parser::get_next_token, model_get_next_token)]
+#[kani::stub(Parser::skip_one, model_skip_one_full)]
+#[kani::stub(Parser::peek_invalid_type, cut_peek_invalid_type)]
+fn m_get_array_unchecked_n8() {
+    const N: usize = 8;
+    let buf: [u8; N] = kani::any();
+    let n: usize = kani::any();
+    kani::assume(n <= N);
+    // precondition of the unchecked API: a well-formed JSON text
+    kani::assume(ref_is_json_text(&buf, n));
+    unsafe {
+        setup(&buf, n);
+        setup_full(&buf, n);
+        TOK_A = b']';
+        TOK_B = b',';
+    }
+    let s0 = unsafe { ws_next(0) };
+    kani::assume(buf[s0] == b'[');
+    let idx: usize = kani::any();
+    kani::assume(idx <= 2);
+    // reference: walk the elements with the full grammar
+    let mut i = unsafe { ws_next(s0 + 1) };
+    let mut found: Option<(usize, usize)> = None;
+    if buf[i] != b']' {
+        let mut k = 0;
+        loop {
+            let e = unsafe { tab(&FULL_END, i) }.unwrap();
+            if k == idx {
+                found = Some((i, e));
+                break;
+            }
+            i = unsafe { ws_next(e) };
+            if buf[i] == b']' {
+                break;
+            }
+            i = unsafe { ws_next(i + 1) };
+            k += 1;
+        }
+    }
+    let mut p = mk(&buf[..n]);
+    let r = match p.get_from_array(idx) {
+        Ok(()) => p.skip_one(),
+        Err(e) => Err(e),
+    };
+    match found {
+        Some((s, e)) => {
+            let (span, _) = r.as_ref().ok().unwrap();
+            assert_eq!(span.as_ptr(), unsafe { buf.as_ptr().add(s) });
+            assert_eq!(span.len(), e - s);
+        }
+        None => assert!(r.is_err()),
+    }
+    kani::cover!(matches!(found, Some((s, _)) if s >= 4) && idx == 1);
+    kani::cover!(found.is_none() && idx == 1);
+    kani::cover!(found.is_some() && idx == 2);
+    core::mem::forget(r);
+}
